@@ -20,6 +20,10 @@ def check(ctx):
     ctx.guard(r101, ctx)
     ctx.guard(r102, ctx)
     ctx.guard(r102_delegation, ctx)
+    from .c04 import r044_thresholder
+    ctx.rule("R10.6", "the thresholder's probability of a row is p_ignore*c + (1 - p_ignore)*(p0*op0(s) + p1*op1(s)) of the row's own "
+                      "group, assigned through a mask (shared with C04 R04.4): it depends only on the row's score and group")
+    ctx.guard(r044_thresholder, ctx, "R10.6")
     ctx.guard(r103, ctx)
     ctx.guard(_shared_c10, ctx)
 
